@@ -100,6 +100,9 @@ def conformant(sect, m, u, v, d, p):
 
 
 EXPECT_NOPERIOD = {}
+# ~Curves lines whose mnemonic ends in an abbreviation period written directly before the dot delimiter ("Cond..MS/M",
+# "I. Res..OHM-M": the documented form of lasio issue 264, used by the example files): line -> expected fields
+EXPECT_DD = {}
 
 
 def layout(m, u, v, d, p):
@@ -114,6 +117,34 @@ VA = ["", "12.5", "hello world", "A9-16-49-20W3M", "x (y) [z]", "-999.25", "\"qu
 DE = ["", "DEPTH", "1  DEPTH", "Time Logger", "x (y)", "ends.", "\"q\"", "a: b", "At: Bottom : deep", "12:30 run", "\u0433\u043b\u0443\u0431\u0438\u043d\u0430",
       "{F}", "1 2 3", "v.2"]
 PADS = ["", " ", "     ", "\t", " \t  "]
+
+
+DD_MN = ["Cond.", "I. Res.", "Temp.", "Abs. Por.", "R.", "\u0413\u043b.", "N. Por. (ls)."]
+DD_UN = ["MS/M", "OHM-M", "", "m.s", "DEGF", "%", "\u00b5s/ft", "ft:in"]
+DD_VA = ["", "", "12.5", "7", "3.", "e.g. this", "hello world", "-999.25"]
+# descriptions: ordinary ones and ones that THEMSELVES hold two consecutive periods (ellipsis at the end, in the middle,
+# an abbreviation closing a sentence, nothing but periods)
+DD_DE = ["Cond.", "I. Res.", "plain", "", "Conductivity (induction, deep)...", "Conductivity (deep)...", "Res. (see Sect. 3..)",
+         "Ind. Res. of unit no..", "Temp. .. recorded at surface", "no..", "..", "...", "a..b", "..x", "see a..b and c...",
+         "1  DEPTH ..", "etc. etc..", "x . . y.."]
+
+
+def gen_dd(rng, n):
+    """~Curves lines `<pad>Abbr..UNIT<pad>VALUE<pad>:<pad>DESCR<pad>`: the mnemonic is "Abbr." (its period included), set
+    directly against the dot delimiter; unit and value hold no "..", the description may.  -> [(line, expected)]"""
+    out = []
+    for k in range(n):
+        m, u, v, d = rng.choice(DD_MN), rng.choice(DD_UN), rng.choice(DD_VA), rng.choice(DD_DE)
+        if k < len(DD_DE) * 2:
+            d = DD_DE[k % len(DD_DE)]          # every description at least twice (with / without value)
+            v = "" if k < len(DD_DE) else rng.choice(DD_VA[2:])
+            m, u = (("Cond.", "MS/M"), ("I. Res.", "OHM-M"))[k % 2]      # the two documented shapes first
+        p = [rng.choice(PADS) for _ in range(6)]
+        if v and p[2] == "":
+            p[2] = rng.choice(PADS[1:])
+        line = p[0] + m + "." + u + p[2] + v + p[3] + ":" + p[4] + d + p[5]
+        out.append((line, (m, u, v, d)))
+    return out
 
 
 def time_values():
@@ -177,6 +208,9 @@ def gen(ctx):
             continue
         specials.append((sect, code, line))
         EXPECT_NOPERIOD[line] = (nm.strip(), "", v.strip(), "")
+    for line, exp in gen_dd(rng, n // 15):
+        specials.append(("Curves", "C", line))
+        EXPECT_DD[line] = exp
     return cases, specials
 
 
@@ -238,6 +272,14 @@ def run(ctx):
         if line in EXPECT_NOPERIOD and got != EXPECT_NOPERIOD[line]:
             res.oracle_violations.append({"payload": {"sect": sect, "line": line, "expect": list(EXPECT_NOPERIOD[line])},
                                           "what": "line without a period %r in %r -> %r, expected %r" % (line, sect, got, EXPECT_NOPERIOD[line])})
+        if sect == "Curves" and line in EXPECT_DD:
+            hist["curves_abbrev_mnemonic"] = hist.get("curves_abbrev_mnemonic", 0) + 1
+            if ".." in EXPECT_DD[line][3]:
+                hist["curves_abbrev_mnemonic_dd_descr"] = hist.get("curves_abbrev_mnemonic_dd_descr", 0) + 1
+            if got != EXPECT_DD[line]:
+                res.oracle_violations.append({"payload": {"sect": sect, "line": line, "expect": list(EXPECT_DD[line])},
+                                              "what": "~Curves line with an abbreviated mnemonic next to the dot delimiter %r -> %r, expected %r"
+                                                      % (line, got, EXPECT_DD[line])})
         if line in expected_special and got != expected_special[line]:
             res.oracle_violations.append({"payload": {"sect": sect, "line": line, "expect": list(expected_special[line])},
                                           "what": "documented form %r -> %r" % (line, got)})
@@ -262,7 +304,8 @@ def run(ctx):
     res.rule = ("lines MNEM.UNIT VALUE : DESCR laid out from field pools (letters, digits, punctuation, quotes, brackets, "
                 "non-ASCII letters, units with interior dots/colons, clock times for all 24 hours) with six paddings drawn from "
                 "{none, 1 blank, many, tab, mixed} in six section kinds; non-trivial = distinct (section, field classes, padding "
-                "classes) tuples among the conformant lines")
+                "classes) tuples among the conformant lines; plus NAME : VALUE lines without a period, and ~Curves lines whose mnemonic ends "
+                "in an abbreviation period next to the dot delimiter (Cond..MS/M) with descriptions that do / do not hold '..' themselves")
     res.samples = [m[1] for m in meta[:4]] + [m[1] for m in meta[-3:]]
     res.histogram = hist
     return res
@@ -289,6 +332,12 @@ def search(ctx, res):
         c.rng = random.Random(ctx.seed + 1000 + s)
         c.thorough = True
         cases, _ = gen(c)
+        for line, exp in gen_dd(c.rng, 400):
+            got = impl(line, "Curves")
+            if got != exp:
+                yield {"payload": {"sect": "Curves", "line": line, "expect": list(exp)},
+                       "what": "~Curves line with an abbreviated mnemonic next to the dot delimiter %r -> %r, expected %r" % (line, got, exp)}
+                return
         for sect, code, f, p in cases:
             if conformant(sect, *f, p):
                 line = layout(*f, p)
